@@ -2366,6 +2366,10 @@ func (c *RegionCache) loadRegion(bo *retry.Backoffer, key []byte, isEndKey bool,
 		ctx = opentracing.ContextWithSpan(ctx, span1)
 	}
 
+	if isEndKey && len(key) == 0 {
+		// The end of the key space belongs to the last region; PD has no call for it, scan towards it.
+		return c.loadLastRegion(bo)
+	}
 	var backoffErr error
 	searchPrev := false
 	opts = append(opts, opt.WithBuckets())
@@ -2415,6 +2419,27 @@ func (c *RegionCache) loadRegion(bo *retry.Backoffer, key []byte, isEndKey bool,
 			continue
 		}
 		return newRegion(bo, c, reg)
+	}
+}
+
+// loadLastRegion loads the region whose end key is unbounded, scanning from the greatest cached start key.
+func (c *RegionCache) loadLastRegion(bo *retry.Backoffer) (*Region, error) {
+	startKey := []byte{}
+	c.mu.RLock()
+	if item, ok := c.mu.sorted.b.Max(); ok {
+		startKey = item.cachedRegion.StartKey()
+	}
+	c.mu.RUnlock()
+	for {
+		regions, err := c.scanRegions(bo, startKey, nil, defaultRegionsPerBatch)
+		if err != nil {
+			return nil, err
+		}
+		last := regions[len(regions)-1]
+		if len(last.EndKey()) == 0 {
+			return last, nil
+		}
+		startKey = last.EndKey()
 	}
 }
 
